@@ -110,6 +110,27 @@ def run(prop, tier, seed, replay=None):
         # impl -> design spec: every timer result / next_expiry / firing order against TimersOps
         dtv = common.validate_timers_design(tpath, "%s-%s-%d" % (prop, tier, seed))
     nev = verdict["lines"]
+    # non-vacuity: how often each operation of the programs and each event kind of the trace occurred
+    op_hist, ev_hist = {}, {}
+
+    def _walk(ops):
+        for o in ops:
+            if not isinstance(o, dict):
+                continue
+            op_hist[o.get("op", "?")] = op_hist.get(o.get("op", "?"), 0) + 1
+            for k in ("item", "init"):
+                it = o.get(k)
+                if isinstance(it, dict):
+                    _walk(it.get("ops", []))
+                    _walk(it.get("ondrop", []) or [])
+    for c in run_list:
+        _walk(c.get("ops", []))
+    with open(tpath) as f:
+        for ln in f:
+            i = ln.find('"e":"')
+            if i >= 0:
+                k = ln[i + 5:ln.find('"', i + 5)]
+                ev_hist[k] = ev_hist.get(k, 0) + 1
     samples = [run_list[i] for i in range(0, len(run_list), max(1, len(run_list) // 3))][:3]
     coverage = {
         "states": mc["states"],
@@ -120,6 +141,8 @@ def run(prop, tier, seed, replay=None):
         "distinct_nontrivial": len({json.dumps(c["ops"], sort_keys=True) for c in cases if len(c.get("ops", [])) >= 2}),
         "rule": "cases = behaviours exported by TLC from the design spec(s) %s (one per printed behaviour) + seeded random programs of the families %s; a case is non-trivial if it has >= 2 top-level operations; distinct by operation list" % (mc["specs"], [f for f, _, _ in PLANS[prop]]),
         "trace_events_validated": nev,
+        "operation_histogram": dict(sorted(op_hist.items())),
+        "event_histogram": dict(sorted(ev_hist.items())),
         "spec_generated_cases": len(mc["cases"]),
         "drift_events": drift[:20],
         "drift_count": len(drift) + (dtv["ndrift"] if dtv else 0),
